@@ -23,7 +23,7 @@ RULE = ("a probe model M is observed (argument names and values, state map, RHS 
         "process-global caches are recorded; non-trivial = history contains >= 1 compile of a model related to M; distinct = "
         "distinct (M, history) hash")
 DECIDING = ['observations_compared', 'earlier_functions_rechecked', 'hist_steps', 'hist_compiles', 'hist_no_clear_compiles',
-            'hist_exceptions', 'hist_same_opname', 'hist_same_objects']
+            'hist_exceptions', 'hist_same_opname', 'hist_same_objects', 'shared_subcircuit_cases', 'hist_shared_update_var']
 ASSUMPTIONS = ['the probe model is observed through fresh template objects built from its spec (the state carry-over of a '
                'template object is documented statefulness, DESIGN 4a)']
 CASE_TIMEOUT = 300
@@ -39,6 +39,8 @@ def plan(tier, seed):
     for feat in FOCUS:
         fam = 'probe:' + feat if feat in opened else 'main'
         cases += [{'family': fam, 'cseed': rnd.randrange(1 << 30), 'want': feat} for _ in range(k)]
+    # circuits that share sub-circuit template OBJECTS over several hierarchy levels with the probe model
+    cases += [{'family': 'shared_subcircuits', 'cseed': rnd.randrange(1 << 30)} for _ in range(30 if tier == 'quick' else 600)]
     return cases
 
 
@@ -178,12 +180,12 @@ def history_risks(steps):
     return r
 
 
-def observe_M(spec, seed):
-    """full observation of the probe model through fresh template objects"""
+def observe_M(spec, seed, factory=None):
+    """full observation of the probe model through fresh template objects (or through templates made by `factory`)"""
     rnd = random.Random(seed)
     out = {}
     for vec in (False, True):
-        obs = observe.compile_vf(spec, vectorize=vec, clear=True)
+        obs = observe.compile_vf(spec, vectorize=vec, clear=True, template=factory() if factory else None)
         n = len(np.asarray(obs['args'][1]))
         ys = [np.array([rnd.gauss(0, 1) for _ in range(n)]) for _ in range(3)]
         vals = [observe.call_vf(obs, obs['args'], y.copy()).tolist() for y in ys]
@@ -191,9 +193,100 @@ def observe_M(spec, seed):
                             'args': [np.asarray(a, dtype=float).tolist() for a in obs['args'] if not callable(a)], 'rhs': vals}
     ref = RefModel(spec)
     keys = list(ref.state_keys)[:6]
-    df = observe.run_model(spec, T=5e-3, dt=1e-3, outputs={f'o{i}': '/'.join(k) for i, k in enumerate(keys)}, vectorize=False)
+    df = observe.run_model(spec, T=5e-3, dt=1e-3, outputs={f'o{i}': '/'.join(k) for i, k in enumerate(keys)}, vectorize=False,
+                           template=factory() if factory else None)
     out['run'] = df.values.tolist()
     return out
+
+
+def run_shared_case(case, ctx):
+    """Probe model M = top{c: mid, d: mid}, mid{x: leaf, y: leaf} (three levels).  History: another circuit T1{a: mid, b: mid}
+    built from the SAME mid/leaf template objects is modified through one branch (update_var with single paths and
+    wildcards), compiled and run; then M is built from the same objects and observed.  A pristine process observes M built
+    from fresh objects."""
+    rnd = random.Random(case['cseed'])
+    mech = {}
+    if case.get('spec') is not None:
+        M, steps = case['spec']['M'], case['steps']
+    else:
+        leaf, _, _ = gen.gen_net(rnd, pool=gen.SAFE_POOL, n_nodes=rnd.choice([1, 2]), max_types=2, depth=0, forbid=ctx['excluded'],
+                                 edge_density=rnd.choice([0.0, 0.5]))
+        lc = leaf['circ']
+        lc['name'] = 'leaf'
+        lc['__share'] = 'leaf'
+        mid = {'name': 'mid', 'nodes': {}, 'subs': {'x': lc, 'y': copy.deepcopy(lc)}, 'edges': [], '__share': 'mid'}
+        # an edge between the two leaves inside mid
+        refl = RefModel(leaf)
+        srcs = [k for k in refl.state_keys]
+        tgts = [k for k in refl.param_keys if refl.kind[k] == 'in']
+        if srcs and tgts and rnd.random() < 0.7:
+            s_, t_ = rnd.choice(srcs), rnd.choice(tgts)
+            mid['edges'].append([f"x/{'/'.join(s_)}", f"y/{'/'.join(t_)}", None, {'weight': 0.37}])
+        M = {'ops': leaf['ops'], 'node_types': leaf['node_types'], 'edge_types': {},
+             'circ': {'name': 'top', 'nodes': {}, 'subs': {'c': mid, 'd': copy.deepcopy(mid)}, 'edges': []}}
+        consts = [k for k in refl.param_keys if refl.kind[k] == 'const'] + list(refl.state_keys)
+        steps = []
+        vflag = rnd.random() < 0.4      # one vectorize setting per template object (mixing them: C14 finding, documented state)
+        for _ in range(rnd.randint(1, 4)):
+            op = rnd.choice(['update_var', 'update_var', 'update_var', 'get_run_func', 'run'])
+            k = rnd.choice(consts)
+            br = rnd.choice(['a', 'b'])
+            lf = rnd.choice(['x', 'y', 'all'])
+            steps.append({'op': op, 'path': f"{br}/{lf}/{'/'.join(k)}", 'value': round(rnd.uniform(1.5, 2.5), 3),
+                          'clear': rnd.random() < 0.7, 'vectorize': vflag})
+        if not any(s_['op'] == 'update_var' for s_ in steps):
+            steps[0]['op'] = 'update_var'
+    res = {'features': ['shared_subcircuits'] + sorted({s_['op'] for s_ in steps}), 'risk': [], 'sig': stable_hash([M, steps]),
+           'case_extra': {'steps': steps}, 'nontrivial': True}
+    try:
+        st, fresh = fresh_observation(M, case['cseed'])
+        if st != 'ok':
+            raise observe.Mismatch(f'loud: probe model fails in a pristine process: {fresh}')
+        from pyrates import CircuitTemplate
+        tM, objs = build.build_python(M)
+        mid_t = tM.circuits['c']
+        if tM.circuits['d'] is not mid_t or mid_t.circuits['x'] is not mid_t.circuits['y']:
+            raise observe.Mismatch('harness: sub-circuit objects are not shared')
+        T1 = CircuitTemplate(name='T1', circuits={'a': mid_t, 'b': mid_t})
+        dt = 1e-3
+        for i, s_ in enumerate(steps):
+            try:
+                if s_['op'] == 'update_var':
+                    T1.update_var(node_vars={s_['path']: s_['value']})
+                    mech['hist_shared_update_var'] = mech.get('hist_shared_update_var', 0) + 1
+                elif s_['op'] == 'get_run_func':
+                    T1.get_run_func(f'h{i}', step_size=dt, vectorize=s_['vectorize'], verbose=False, clear=s_['clear'], in_place=False,
+                                    float_precision='float64', file_name=f'hist_{i}')
+                    mech['hist_compiles'] = mech.get('hist_compiles', 0) + 1
+                else:
+                    k0 = RefModel(M).state_keys[0]
+                    T1.run(simulation_time=4 * dt, step_size=dt, outputs={'o': 'a' + '/'.join(k0)[1:]}, vectorize=s_['vectorize'],
+                           verbose=False, clear=True, in_place=False, float_precision='float64')
+                    mech['hist_compiles'] = mech.get('hist_compiles', 0) + 1
+            except Exception as e:
+                import traceback
+                raise observe.Mismatch(f"loud: history step {i} {s_} raised {type(e).__name__}: {e} :: {traceback.format_exc()[-300:]}")
+        mech['hist_steps'] = len(steps)
+        mech['hist_same_objects'] = 1
+        try:
+            after = observe_M(M, case['cseed'], factory=lambda: CircuitTemplate(name='top', circuits={'c': mid_t, 'd': mid_t}))
+        except Exception as e:
+            import traceback
+            raise observe.Mismatch(f"loud: probe model built from the shared objects fails after history {steps}: "
+                                   f"{type(e).__name__}: {e} :: {traceback.format_exc()[-300:]}")
+        d = first_diff(fresh, after)
+        mech['observations_compared'] = 1
+        mech['shared_subcircuit_cases'] = 1
+        if d:
+            raise observe.Mismatch(f"probe model top{{c: mid, d: mid}} built from sub-circuit objects that another circuit T1{{a: mid, b: mid}} "
+                                   f"also uses differs from the pristine observation at {d}; history on T1: "
+                                   f"{[(s_['op'], s_['path'], s_['value']) for s_ in steps]}")
+        res.update(status='ok', symptom='', mech=mech)
+        res['sample'] = {'history': steps, 'probe_nodes': RefModel(M).node_order}
+    except observe.Mismatch as e:
+        s2 = str(e)
+        res.update(status='violation', symptom=('silent: ' if 'loud' not in s2 else '') + s2, mech=mech, spec={'M': M})
+    return res
 
 
 def fresh_observation(spec, seed):
@@ -245,6 +338,8 @@ def first_diff(a, b, path=''):
 
 
 def run_case(case, ctx):
+    if case.get('family') == 'shared_subcircuits':
+        return run_shared_case(case, ctx)
     rnd = random.Random(case['cseed'])
     if case.get('spec') is not None:
         models, steps = case['spec'], case['steps']
